@@ -11,3 +11,6 @@ def run(ctx, rep):
     from ..rules import alloc, more
     alloc.rule_O7_bound_before_bump(mod, rep)          # extents stay inside their arrays: every cursor bump is checked against its own limit
     more.rule_super_bnd_test(mod, rep)
+    more.rule_meminit_refact(mod, rep)
+    from ..rules import more3
+    more3.rule_fixup_snapshot(mod, rep)
